@@ -340,23 +340,23 @@ def run_sem_round(ctx, ck, name, oracles, n, seed_off):
 
 
 def run_c01(ctx, ck):
-    run_sem(ctx, ck, ["sem-scalar"], [sem_oracle], 250, 8000)
+    run_sem(ctx, ck, ["sem-scalar"], [sem_oracle], 1500, 10000)
 
 
 def run_c02(ctx, ck):
-    run_sem(ctx, ck, ["sem-funcs"], [sem_oracle], 200, 6000)
+    run_sem(ctx, ck, ["sem-funcs"], [sem_oracle], 1200, 8000)
 
 
 def run_c03(ctx, ck):
-    run_sem(ctx, ck, ["sem-slices"], [sem_oracle], 200, 6000)
+    run_sem(ctx, ck, ["sem-slices"], [sem_oracle], 1200, 8000)
 
 
 def run_c04(ctx, ck):
-    run_sem(ctx, ck, ["sem-effects"], [sem_oracle], 200, 6000)
+    run_sem(ctx, ck, ["sem-effects"], [sem_oracle], 1200, 8000)
 
 
 def run_c16(ctx, ck):
-    run_sem(ctx, ck, ["sem-all", "suite"], [syntax_oracle], 200, 6000)
+    run_sem(ctx, ck, ["sem-all", "suite"], [syntax_oracle], 400, 6000)
     si = ck.run_stream(ctx, "imports", 80 if ctx.tier == "quick" else 3000)
     compare(ctx, si, "import graphs: every called label/function must be contained", lambda k, s: {}, describe_files,
             lambda k, s: "ok:" in (s["impl"].get(k) or ""), oracle=syntax_oracle)
@@ -569,8 +569,7 @@ def run_c05(ctx, ck):
                 bat = toks(s["impl"].get(k)).get("bat", "-")
                 if bat != "-":
                     f.write("cmdrun %s %s\n" % (k[1], bat))
-    with open(d2 + "/cases.txt") as fi, open(d2 + "/model.txt", "w") as fo:
-        subprocess.run(["/verif/.build/driver"], stdin=fi, stdout=fo, stderr=subprocess.PIPE, timeout=3600)
+    ck.run_driver(d2 + "/cases.txt", d2 + "/model.txt")
     implrun = {}
     for l in open(d2 + "/model.txt"):
         p = l.rstrip("\n").split(" ", 2)
